@@ -299,3 +299,100 @@ func verifQuietLogger() *logger.ReceptorLogger {
 	l.SetOutput(verifDiscard{})
 	return l
 }
+
+// ---- C09: the product of the quantifier
+
+func verifyGen(v *verifRun) {
+	hx := func(s string) string { return verifHex([]byte(s)) }
+	cas := []string{"trusted", "trusted", "trusted", "other", "self"}
+	vals := []string{"valid", "valid", "valid", "expired", "notyet"}
+	usages := []string{"server", "client", "both", "neither"}
+	pinSets := [][]string{{}, {}, {"sha256"}, {"sha512"}, {"sha224"}, {"sha384"}, {"wrong32"}, {"wrong64"}, {"len20"}, {"len0"},
+		{"wrong32", "sha256"}, {"sha256", "len20"}, {"len20", "sha256"}, {"wrong64", "wrong32"}, {"sha512", "wrong32"}}
+	idSets := [][]string{{"node-a"}, {"node-b"}, {"node-a", "node-b"}, {}, {"Node-A"}, {"node-a "}, {"xnode-a"}}
+	dnsSets := [][]string{{}, {"node-a"}, {"example.com"}, {"node-a", "example.com"}}
+	// first the single-failure matrix around a fully admissible peer, then random points of the product
+	base := certArgs{CA: "trusted", Validity: "valid", Usage: "both", IDs: []string{hx("node-a")}, DNS: []string{}, Pins: []string{"sha256"},
+		Expected: hx("node-a"), Mode: "receptor", Role: "server"}
+	emit := func(a certArgs) {
+		if a.DNS == nil {
+			a.DNS = []string{}
+		}
+		if a.IDs == nil {
+			a.IDs = []string{}
+		}
+		if a.Pins == nil {
+			a.Pins = []string{}
+		}
+		a.IPs, a.Candidates = []string{}, []string{}
+		v.do(certApply, "verify", a)
+	}
+	for _, role := range []string{"server", "client"} {
+		b := base
+		b.Role = role
+		emit(b)
+		for _, ca := range []string{"other", "self"} {
+			c := b
+			c.CA = ca
+			emit(c)
+		}
+		for _, val := range []string{"expired", "notyet"} {
+			c := b
+			c.Validity = val
+			emit(c)
+		}
+		for _, u := range usages {
+			c := b
+			c.Usage = u
+			emit(c)
+		}
+		for _, ps := range pinSets {
+			c := b
+			c.Pins = ps
+			emit(c)
+		}
+		for _, ids := range idSets {
+			c := b
+			c.IDs = nil
+			for _, id := range ids {
+				c.IDs = append(c.IDs, hx(id))
+			}
+			emit(c)
+		}
+		c := b
+		c.Garbage = true
+		emit(c)
+		c = b
+		c.IDs, c.DNS = nil, []string{hx("node-a")} // DNS-only certificate where a receptor node is expected
+		emit(c)
+		c = b
+		c.Mode, c.DNS, c.Expected = "dns", []string{hx("example.com")}, hx("example.com")
+		emit(c)
+		c.Expected = hx("other.example.com")
+		emit(c)
+		c.Expected = ""
+		emit(c)
+	}
+	for i := 0; i < v.n; i++ {
+		a := certArgs{CA: cas[v.rng.Intn(len(cas))], Validity: vals[v.rng.Intn(len(vals))], Usage: usages[v.rng.Intn(4)],
+			Pins: pinSets[v.rng.Intn(len(pinSets))], Role: []string{"server", "client"}[v.rng.Intn(2)], Mode: "receptor",
+			Garbage: v.rng.Intn(25) == 0}
+		for _, id := range idSets[v.rng.Intn(len(idSets))] {
+			a.IDs = append(a.IDs, hx(id))
+		}
+		for _, d := range dnsSets[v.rng.Intn(len(dnsSets))] {
+			a.DNS = append(a.DNS, hx(d))
+		}
+		a.Expected = hx([]string{"node-a", "node-a", "node-b", "NODE-A", ""}[v.rng.Intn(5)])
+		if v.rng.Intn(4) == 0 {
+			a.Mode = "dns"
+			a.Expected = hx([]string{"node-a", "example.com", "", "nope.example.com"}[v.rng.Intn(4)])
+		}
+		emit(a)
+	}
+}
+
+func TestVerifVerify(t *testing.T) {
+	v := verifOpen(t, "verify")
+	v.run(certApply, verifyGen)
+}
